@@ -292,6 +292,28 @@ theorem sso_tuned_in_place_node_rate (mu re j2 : ℝ) (ops : List J2Op) (s : J2O
 example : J2Obj.userAfter ⟨7e6, 0.01, 1, 2, 3, 4, 0⟩ [J2Op.prop 60, J2Op.setEl 2 1.7, J2Op.prop 60]
     = ⟨7e6, 0.01, 1.7, 2, 3, 4, 0⟩ := by simp [J2Obj.userAfter, MeanEl.set]
 
+/-! ## Durations: which number of seconds the helpers read from a `timedelta` -/
+
+/-- **every duration is read through `total_seconds()`**: the list of all reads of a duration as a number in the anchored
+files, regenerated from the AST on every run, is exactly the `total_seconds` of `_F` (the transfer time of the Lambert
+equation, the `duration` argument of `lamF`) and of `J2.propagate` (the propagation span) — no `.seconds`, `.days`,
+`.microseconds` anywhere. -/
+theorem timedelta_reads_total_seconds :
+    timedeltaReads = ["j2.py:J2.propagate: (date - self.orbit.date).total_seconds", "lambert.py:_F: duration.total_seconds"] := by
+  decide
+
+/-- what a read of `.seconds` instead would lose: the whole days and the microseconds -/
+theorem td_total_sub_seconds (d s us : ℝ) : tdTotal d s us - s = d * 86400 + us / 1000000 := by
+  unfold tdTotal; ring
+
+/-- … at least a day as soon as the duration reaches one day -/
+theorem td_seconds_ne_total (d s us : ℝ) (hd : 1 ≤ d) (hus : 0 ≤ us) : 86400 ≤ tdTotal d s us - s := by
+  rw [td_total_sub_seconds]
+  have : 0 ≤ us / 1000000 := by positivity
+  nlinarith
+
+example : tdTotal 3 43200 500000 = 302400.5 := by unfold tdTotal; norm_num
+
 /-! ## Lambert's problem -/
 
 theorem rpow_three_half (x : ℝ) (hx : 0 ≤ x) : Real.rpow x 1.5 = Real.sqrt x ^ 3 := by
